@@ -23,7 +23,7 @@ from .threads import Scheduler, StepCapExceeded
 
 PROP = "C19"
 LEVEL = "exploration"
-MEM_GIB = 8.0
+MEM_GIB = 4.0
 SHRINK_CAP = 400
 SHRINK_WALL_S = 90
 MAX_REPORTS = 4
